@@ -1,5 +1,5 @@
 (** Proofs about Model/Dispatch.v (property C07). *)
-From Coq Require Import List NArith Bool Lia.
+From Coq Require Import List NArith Bool Lia PeanoNat.
 Import ListNotations.
 From LV Require Import Model.Dispatch.
 Local Open Scope N_scope.
@@ -962,13 +962,13 @@ Section Sem.
 
   Lemma add_member_wf : forall s e m, wf s -> wf (add_member s e m).
   Proof.
-    intros s e m W. destruct m; simpl; [apply new_ds_wf | apply new_ds_wf | apply set_dispatch_wf]; exact W.
+    intros s e m W. destruct m; unfold add_member; [apply new_ds_wf | apply new_ds_wf | apply set_dispatch_wf]; exact W.
   Qed.
 
   Lemma add_member_binding : forall s e m d a, wf s -> (is_new m = true -> mk_id m <> d) ->
     binding (add_member s e m) d a = binding s d a.
   Proof.
-    intros s e m d a W H. destruct m as [d0|d0 g|d0]; simpl in *.
+    intros s e m d a W H. destruct m as [d0|d0 g|d0]; unfold add_member; simpl in H.
     - apply new_ds_binding_other; [exact W|]. intro E. apply (H eq_refl). symmetry. exact E.
     - apply new_ds_binding_other; [exact W|]. intro E. apply (H eq_refl). symmetry. exact E.
     - apply set_dispatch_binding. exact W.
@@ -977,7 +977,7 @@ Section Sem.
   Lemma add_member_has_key : forall (s : state) e m d,
     has_key d (st_ds s) = true -> has_key d (st_ds (add_member s e m)) = true.
   Proof.
-    intros s e m d H. destruct m as [d0|d0 g|d0]; simpl.
+    intros s e m d H. destruct m as [d0|d0 g|d0]; unfold add_member.
     - rewrite new_ds_has_key, H. apply orb_true_r.
     - rewrite new_ds_has_key, H. apply orb_true_r.
     - rewrite set_dispatch_has_key. exact H.
@@ -1043,7 +1043,7 @@ Section Sem.
 
   Lemma step_wf : forall fuel x s ob s', wf s -> STEP cfg_now fuel x s = Some (ob, s') -> wf s'.
   Proof.
-    intros fuel x s ob s' W H. destruct x; simpl in H.
+    intros fuel x s ob s' W H. destruct x; unfold step in H.
     - destruct (has_key d (st_ds s)); inversion H; subst; [exact W | apply new_ds_wf; exact W].
     - destruct (has_key d (st_ds s)); inversion H; subst; [apply register_wf; exact W | exact W].
     - destruct (negb (has_key d (st_ds s)) || has_key d' (st_ds s)); [inversion H; subst; exact W|].
@@ -1076,7 +1076,7 @@ Section Sem.
   Lemma step_has_key : forall fuel x s ob s' d,
     STEP cfg_now fuel x s = Some (ob, s') -> has_key d (st_ds s) = true -> has_key d (st_ds s') = true.
   Proof.
-    intros fuel x s ob s' k H K. destruct x; simpl in H.
+    intros fuel x s ob s' k H K. destruct x; unfold step in H.
     - destruct (has_key d (st_ds s)); inversion H; subst; [exact K|].
       rewrite new_ds_has_key, K. apply orb_true_r.
     - destruct (has_key d (st_ds s)); inversion H; subst; [rewrite register_ds|]; exact K.
@@ -1114,7 +1114,7 @@ Section Sem.
     wf s -> STEP cfg_now fuel x s = Some (ob, s') -> op_quiet a x = true ->
     has_key d (st_ds s) = true -> binding s' d a = binding s d a.
   Proof.
-    intros fuel x s ob s' k a W H Q K. destruct x; simpl in H, Q.
+    intros fuel x s ob s' k a W H Q K. destruct x; unfold step in H; simpl in Q.
     - destruct (has_key d (st_ds s)) eqn:Hd; inversion H; subst; [reflexivity|].
       apply new_ds_binding_other; [exact W|]. intro E. subst. congruence.
     - destruct (has_key d (st_ds s)); inversion H; subst; [|reflexivity].
@@ -1154,5 +1154,142 @@ Section Sem.
       rewrite (implement_regs _ _ _ _ _ E). apply quiet_regs_binding; [exact W|].
       intros t Ht E2. apply regs_of_alias in Ht. rewrite E2 in Ht. apply memN_In in Ht.
       apply negb_true_iff in Q. congruence.
+  Qed.
+
+  (** * Histories *)
+
+  Lemma run_cons : forall c fuel x h s obs s',
+    RUN c fuel (x :: h) s = Some (obs, s') ->
+    exists ob s1 obs', STEP c fuel x s = Some (ob, s1) /\ RUN c fuel h s1 = Some (obs', s') /\ obs = ob :: obs'.
+  Proof.
+    intros c fuel x h s obs s' H. simpl in H.
+    destruct (STEP c fuel x s) as [[ob s1]|] eqn:E1; [|discriminate].
+    destruct (RUN c fuel h s1) as [[obs' s2]|] eqn:E2; [|discriminate].
+    inversion H. subst. exists ob, s1, obs'. split; [reflexivity|]. split; [exact E2 | reflexivity].
+  Qed.
+
+  Lemma run_app : forall c fuel h1 h2 s obs s',
+    RUN c fuel (h1 ++ h2) s = Some (obs, s') ->
+    exists obs1 s1 obs2, RUN c fuel h1 s = Some (obs1, s1) /\ RUN c fuel h2 s1 = Some (obs2, s') /\
+                         obs = obs1 ++ obs2 /\ length obs1 = length h1.
+  Proof.
+    intros c fuel h1. induction h1 as [|x h1 IH]; intros h2 s obs s' H.
+    - exists [], s, obs. repeat split. exact H.
+    - rewrite <- app_comm_cons in H. apply run_cons in H.
+      destruct H as [ob [s1 [obs' [H1 [H2 H3]]]]].
+      destruct (IH h2 s1 obs' s' H2) as [obs1 [s2 [obs2 [A [B [C D]]]]]].
+      exists (ob :: obs1), s2, obs2. simpl. rewrite H1, A. subst. simpl. rewrite D. repeat split. exact B.
+  Qed.
+
+  Lemma run_wf : forall fuel h s obs s', wf s -> RUN cfg_now fuel h s = Some (obs, s') -> wf s'.
+  Proof.
+    intros fuel h. induction h as [|x h IH]; intros s obs s' W H.
+    - inversion H. subst. exact W.
+    - apply run_cons in H. destruct H as [ob [s1 [obs' [H1 [H2 _]]]]].
+      apply (IH s1 obs' s'); [eapply step_wf; eassumption | exact H2].
+  Qed.
+
+  Lemma run_has_key : forall fuel h s obs s' d,
+    RUN cfg_now fuel h s = Some (obs, s') -> has_key d (st_ds s) = true -> has_key d (st_ds s') = true.
+  Proof.
+    intros fuel h. induction h as [|x h IH]; intros s obs s' d H K.
+    - inversion H. subst. exact K.
+    - apply run_cons in H. destruct H as [ob [s1 [obs' [H1 [H2 _]]]]].
+      apply (IH s1 obs' s' d H2). eapply step_has_key; eassumption.
+  Qed.
+
+  (** A registration stays in force through any later history that does not re-register that
+      alias: evaluations, set_dispatch, new datasets and derivatives, interface definitions,
+      registrations under other aliases, rejected implementations. *)
+  Theorem registration_persists : forall fuel h s obs s' d a,
+    wf s -> has_key d (st_ds s) = true ->
+    RUN cfg_now fuel h s = Some (obs, s') -> forallb (op_quiet a) h = true ->
+    binding s' d a = binding s d a.
+  Proof.
+    intros fuel h. induction h as [|x h IH]; intros s obs s' d a W K H Q.
+    - inversion H. reflexivity.
+    - apply run_cons in H. destruct H as [ob [s1 [obs' [H1 [H2 _]]]]].
+      simpl in Q. apply andb_true_iff in Q. destruct Q as [Q1 Q2].
+      rewrite (IH s1 obs' s' d a); try assumption.
+      + eapply step_binding_quiet; eassumption.
+      + eapply step_wf; eassumption.
+      + eapply step_has_key; eassumption.
+  Qed.
+
+  (** ** Registrations take effect at once *)
+
+  (** the (dataset, alias, implementation) triples a directly registering operation names *)
+  Definition registers (x : op) (d a : N) (i : impl) : Prop :=
+    match x with
+    | ORegister d0 a0 i0 => d0 = d /\ a0 = a /\ i0 = i
+    | OOverload d0 als d' _ | OOverloadDs d0 als d' => d0 = d /\ In a als /\ i = IDs d'
+    | _ => False
+    end.
+
+  Lemma all_regs_binding : forall s d als i a, wf s -> has_key d (st_ds s) = true -> In a als ->
+    binding (apply_regs s (map (fun a => (d, a, i)) als)) d a = Some i.
+  Proof.
+    intros s d als i a W K Ha. rewrite (apply_regs_binding _ s d a W).
+    rewrite (last_reg_unique s d a _ i); [reflexivity | |].
+    - exists (d, a, i). split; [apply in_map_iff; exists a; split; [reflexivity | exact Ha]|].
+      unfold targets. simpl. rewrite (same_ovl_refl s d K), N.eqb_refl. reflexivity.
+    - intros t Ht _. apply in_map_iff in Ht. destruct Ht as [a' [E _]]. subst t. reflexivity.
+  Qed.
+
+  Theorem registration_takes_effect : forall fuel x s s1 d a i,
+    wf s -> STEP cfg_now fuel x s = Some (ObOk, s1) -> registers x d a i ->
+    has_key d (st_ds s1) = true /\ binding s1 d a = Some i.
+  Proof.
+    intros fuel x s s1 d a i W H R. destruct x; simpl in R; try contradiction; unfold step in H.
+    - destruct R as [E1 [E2 E3]]. subst.
+      destruct (has_key d (st_ds s)) eqn:K; inversion H; subst.
+      split; [rewrite register_ds; exact K|].
+      rewrite (register_binding s d a i d a W), (same_ovl_refl s d K), N.eqb_refl. reflexivity.
+    - destruct R as [E1 [E2 E3]]. subst.
+      destruct (negb (has_key d (st_ds s)) || has_key d' (st_ds s)) eqn:C; [discriminate|].
+      destruct (negb (has_dispatch s d)); inversion H; subst.
+      apply orb_false_iff in C. destruct C as [C1 C2]. apply negb_false_iff in C1.
+      assert (K : has_key d (st_ds (new_ds s d' DMissing (Some (IFun g)) None)) = true)
+        by (rewrite new_ds_has_key, C1; apply orb_true_r).
+      rewrite register_all_regs. split; [rewrite apply_regs_has_key; exact K|].
+      apply all_regs_binding; [apply new_ds_wf; exact W | exact K | exact E2].
+    - destruct R as [E1 [E2 E3]]. subst.
+      destruct (negb (has_key d (st_ds s)) || negb (has_key d' (st_ds s))) eqn:C; [discriminate|].
+      destruct (negb (has_dispatch s d)); inversion H; subst.
+      apply orb_false_iff in C. destruct C as [C1 C2]. apply negb_false_iff in C1.
+      rewrite register_all_regs. split; [rewrite apply_regs_has_key; exact C1|].
+      apply all_regs_binding; [exact W | exact C1 | exact E2].
+  Qed.
+
+  (** ** late registration: the registered implementation serves every later evaluation that is
+      not already stored, whatever happened in between *)
+  Theorem late_registration_applies : forall fuel h1 x h2 obs s d a i,
+    RUN cfg_now fuel (h1 ++ x :: h2) (@empty_state V) = Some (obs, s) ->
+    registers x d a i -> nth_error obs (length h1) = Some ObOk ->
+    forallb (op_quiet a) h2 = true ->
+    binding s d a = Some i /\
+    forall f o r s' rc ov,
+      get_ds s d = Some rc -> get_ovl s (d_ovl rc) = Some ov ->
+      EVAL (S f) d o s = Some (r, s') ->
+      stored f s d o = None ->
+      deval (o_disp ov) (overlay (d_preset rc) o) = DVal a ->
+      exists r0 s1, impl_outcome f s ov i (overlay (d_preset rc) o) = Some (r0, s1) /\
+                    r = rmap (CB (d_cb rc)) r0.
+  Proof.
+    intros fuel h1 x h2 obs s d a i H R Hok Q.
+    apply run_app in H. destruct H as [obs1 [s0 [obs2 [H1 [H2 [E L]]]]]].
+    apply run_cons in H2. destruct H2 as [ob [s1 [obs' [H3 [H4 E2]]]]].
+    subst obs obs2. rewrite nth_error_app2 in Hok; [|lia]. rewrite L, Nat.sub_diag in Hok.
+    simpl in Hok. inversion Hok. subst ob.
+    assert (W0 : wf s0) by (eapply run_wf; [apply wf_empty | exact H1]).
+    destruct (registration_takes_effect fuel x s0 s1 d a i W0 H3 R) as [K B].
+    assert (W1 : wf s1) by (eapply step_wf; eassumption).
+    assert (Bs : binding s d a = Some i).
+    { rewrite (registration_persists fuel h2 s1 obs' s d a W1 K H4 Q). exact B. }
+    split; [exact Bs|].
+    intros f o r s' rc ov Hds Hov He Hst Hd.
+    pose proof (dispatch_spec f d o s r s' rc ov He Hds Hov Hst) as D.
+    unfold pick in D. rewrite Hd in D.
+    unfold binding, ovl_of in Bs. rewrite Hds, Hov in Bs. rewrite Bs in D. exact D.
   Qed.
 End Sem.
